@@ -8,7 +8,7 @@ res_path = os.path.join(V, "seeded", "RESULTS.json")
 results = json.load(open(res_path)) if os.path.exists(res_path) else {}
 for sid in ids:
     d = os.path.join(V, "seeded", sid)
-    if not os.path.isdir(d):
+    if not os.path.exists(os.path.join(d, "meta.json")):
         continue
     meta = json.load(open(os.path.join(d, "meta.json")))
     assert subprocess.run(["git", "-C", "/repo", "status", "--porcelain"], capture_output=True, text=True).stdout.strip() == "", "/repo is not clean"
